@@ -15,7 +15,8 @@ INT32_EDGES = [0, 1, -1, 127, 128, -128, 255, 256, -256, 32767, 32768, -32768, 6
                0x12345678, -0x12345678]
 
 EXC_SERIAL = ['SerialException', 'SerialTimeoutException', 'PortNotOpenError']
-EXC_ALL = EXC_SERIAL + ['OSError', 'IOError', 'RuntimeError', 'TimeoutError', 'BrokenPipeError', 'RecursionError']
+EXC_ALL = EXC_SERIAL + ['OSError', 'IOError', 'RuntimeError', 'TimeoutError', 'BrokenPipeError', 'RecursionError',
+                        'OSError:EINTR', 'OSError:EAGAIN', 'SerialException:EAGAIN']
 
 # request names for which command()/query() deliberately ignore a dropped link
 IGNORED_NAMES = ('rb', 'r', 'bl')
@@ -235,7 +236,7 @@ E3_CANON = {
     'var_write': [[[200, 5], {}]], 'var_read': [[[5], {}]],
     'var_write_int32': [[[-123456789, 8], {}]], 'var_read_int32': [[[8], {}]],
     'timed_pause': [[[1600], {}], [[1], {}]],
-    'xy_move': [[[10, -20, 30], {}]],
+    'xy_move': [[[10, -20, 30], {}], [[1, 2, 60000], {}]],
     'abs_move': [[[1000], {}], [[1000, 0, 500], {}]],
     'motors_disable': [[[], {}]],
     'motors_enable': [[[1, 1], {}], [[0, 2], {}], [[3, 0], {}], [[0, 0], {}]],
